@@ -8,6 +8,7 @@ CONSTANTS
   MaxSubs = 0
 INVARIANT TypeOK
 INVARIANT ConsultedInOrder
+INVARIANT ToldMatches
 INVARIANT OneDecision
 INVARIANT NothingForExit
 INVARIANT ViaExact
